@@ -947,7 +947,6 @@ func thenBodyShadowed(pk *packages.Package, then *ast.BlockStmt, fd *ast.FuncDec
 	return bad
 }
 
-
 // typeNamesShadowed: some type name (or package qualifier) needed to spell t means something else at pos.
 func typeNamesShadowed(pk *packages.Package, t types.Type, scope *types.Scope, pos token.Pos, depth int) bool {
 	if scope == nil || depth > 8 {
